@@ -92,12 +92,12 @@ def dfxp_doc(divs, tt_lang="en", head="", tt_attrs="", body_attrs=""):
 SAMI_CLASSES = {"en-US": "ENCC", "fr-FR": "FRCC", "de-DE": "DECC", "es-ES": "ESCC"}
 
 
-def sami_doc(syncs, langs, use_lang_attr=False, extra_css="", quote='"'):
+def sami_doc(syncs, langs, use_lang_attr=False, extra_css="", quote='"', class_css=None):
     """syncs: [(ms, [(lang, inner_html)])] in document order; langs: list of language codes.
     Languages are declared as classes in the style sheet (lang: xx-YY) unless use_lang_attr."""
     css = ["P { font-family: Arial; }"]
     for l in langs:
-        css.append(f".{SAMI_CLASSES[l]} {{ Name: {l}; lang: {l}; SAMI_Type: CC; }}")
+        css.append(f".{SAMI_CLASSES[l]} {{ Name: {l}; lang: {l}; SAMI_Type: CC; {(class_css or {}).get(l, '')}}}")
     out = ["<SAMI>", "<HEAD>", "<TITLE>t</TITLE>", '<STYLE TYPE="text/css">', "<!--"] + css + [extra_css, "-->", "</STYLE>", "</HEAD>", "<BODY>"]
     for ms, ps in syncs:
         out.append(f"<SYNC start={quote}{ms}{quote}>")
